@@ -169,6 +169,8 @@ def run(case, j):
         for f0, p0 in ((p, f), (mc0, mc0)):
             j.lib("fit:decoy", est.fit, rng.normal(size=(n, f0)) * 3 + 1, rng.normal(size=(n, p0)) * 3 - 1)
             j.lib("predict:decoy", est.predict, rng.normal(size=(2, f0)))
+        if n > 1 and np.ndim(y) == 2:  # and on a sibling of the judged data: same shapes, column means and column norms
+            j.lib("fit:decoy", est.fit, forms.sibling(X, rng.normal(size=X.shape)), forms.sibling(y, rng.normal(size=y.shape)))
         j.note("estimators_with_a_past")
     yin = y[:, 0].copy() if (case.get("y1d") and proj) else y  # padded mode is defined for 2-D targets only
     if yin.ndim == 1:
